@@ -309,6 +309,13 @@ def run(ctx: Ctx, rs: RuleSet, tier: str):
            'values and metadata come from flatten(value) of the visited value',
            ctx.loc(fm, fm.node))
 
+  # ---- containers are rebuilt, never handed through
+  from fdlstatic.rules import c08
+  rs.declare('SHAPE.map-children', 'map_children returns a rebuilt container '
+             'for every traversable value (built objects are never the '
+             'configuration\'s own containers; separate builds share nothing)',
+             1)
+  c08.map_children_rule(ctx, rs, 'SHAPE.map-children')
   # ---- children before call, once per miss
   c01.children_before_call(ctx, rs)
   rule = 'DOM.single-invocation'
